@@ -1,4 +1,5 @@
 //@host src/io_loop/mod.rs
+//@quick (generic sweep without wall-clock dependence: also runs in the quick tier, labelled bounded)
 // C07 bounded stand-in, end to end through the public API (real I/O thread, in-memory broker): in each of four session states (idle; a
 // consumer whose delivery is outstanding after the method / after the header / after part of the body) the server sends one violating
 // frame from the list below, optionally preceded by legal traffic on another channel.
